@@ -29,7 +29,7 @@ REQUIRED_CLASSES = {"all": ["path:factory", "path:new_record", "path:add_record"
 SHRINK_CAP = {"quick": 400, "thorough": 2000}
 
 NS_A, NS_D = "http://a/", "http://d.org/"
-POOL = [(NS_A, "i1"), (NS_A, "i2"), (NS_D, "i1"), (NS_D, "i3")]
+POOL = [(NS_A, "i1"), (NS_A, "i2"), (NS_D, "i1"), (NS_D, "i3"), (NS_A, "r/2021/s"), (NS_D, "attr#1")]
 KINDS = ["entity", "agent", "activity", "generation", "usage", "derivation", "specialization", "mention", "membership", "alternate"]
 
 
@@ -282,7 +282,7 @@ def apply(s, op, ctx):
 
 def make_machine(Base):
     class IndexCoherence(Base):
-        @rule(scope=st.integers(0, 5), kind=st.integers(0, 9), ident=st.integers(0, 3), prefix=st.integers(0, 3), via=st.integers(0, 3))
+        @rule(scope=st.integers(0, 5), kind=st.integers(0, 9), ident=st.integers(0, 5), prefix=st.integers(0, 3), via=st.integers(0, 3))
         def add_new_record(self, scope, kind, ident, prefix, via):
             self.do(["rec", scope, kind, ident, prefix, via])
 
@@ -294,11 +294,11 @@ def make_machine(Base):
         def update(self, direction, what):
             self.do(["update", direction, what])
 
-        @rule(doc=st.integers(0, 1), ident=st.integers(0, 3))
+        @rule(doc=st.integers(0, 1), ident=st.integers(0, 5))
         def bundle(self, doc, ident):
             self.do(["bundle", doc, ident])
 
-        @rule(direction=st.integers(0, 1), ident=st.integers(0, 3))
+        @rule(direction=st.integers(0, 1), ident=st.integers(0, 5))
         def add_bundle(self, direction, ident):
             self.do(["add_bundle", direction, ident])
 
